@@ -451,7 +451,7 @@ func (cw *codeWorld) concurrentRedeem(step int, ch *kernel.Chooser) string {
 		var evs []kernel.Event
 		for _, p := range sched.ParkedTasks() {
 			p := p
-			evs = append(evs, kernel.Event{Name: "wake:" + p.Task + "@" + p.Point, Drain: true, Apply: func() { sched.Release(p.Task, "go") }})
+			evs = append(evs, kernel.Event{Name: "wake:" + p.Task + "@" + p.Point, Task: p.Task, Drain: true, Apply: func() { sched.Release(p.Task, "go") }})
 		}
 		return evs
 	}, nil)
